@@ -48,7 +48,7 @@ class Boom(Exception):
 EXC = {c.__name__: c for c in (ValueError, TypeError, KeyError, AttributeError, RuntimeError,
                                ZeroDivisionError, AssertionError, RecursionError, StopIteration,
                                OSError, LookupError, ArithmeticError, NotImplementedError,
-                               UnicodeError, Boom)}
+                               UnicodeError, MemoryError, EOFError, Boom)}
 # exception payloads: text that a careless warning/format path could choke on
 PAYLOADS = ['injected fault', '{}', '{name} {0}', '%s %(x)d %', 'line1\nline2', 'sn\u00f6wm\u00e4n \u2603', "{'id': 3}",
             '', '}{', '\\N{bad}', 'x' * 300]
